@@ -474,15 +474,13 @@ fn observe_parse(src: &str) -> Option<ParseObs> {
     .ok()
 }
 
-/// Light observation for the exhaustive families: (number of errors, first error, shape hash,
-/// text of the tree equals the input, every error range inside the text).  No leaf list, no copy of
-/// the green tree; the shape is only computed when asked for.
+/// Light observation for the exhaustive families: number of errors, first error, shape hash (only
+/// computed when asked for), text of the tree equals the input, every error range inside the text.
+/// No leaf list, no copy of the green tree.
 struct LightObs {
     n_errors: usize,
     first_error: Option<(usize, usize, String)>,
     shape: u64,
-    /// hash of the pre-order sequence of NODE kinds only (how the parser structured the text)
-    structure: u64,
     text_eq: bool,
     errors_inside: bool,
 }
@@ -495,20 +493,11 @@ fn observe_light(src: &str, want_shape: bool) -> Option<LightObs> {
         let first_error = errs.first().map(|e| (usize::from(e.range.start()), usize::from(e.range.end()), e.message.clone()));
         let errors_inside = errs.iter().all(|e| e.range.start() <= e.range.end() && usize::from(e.range.end()) <= src.len());
         let text_eq = usize::from(root.text_range().end()) == src.len() && root.text() == src;
-        let (mut shape, mut structure) = (0u64, 0u64);
-        if want_shape {
-            shape = dump_tree(&root).shape;
-            let mut h = Fnv::new();
-            for n in root.descendants() {
-                h.u16(n.kind() as u16);
-            }
-            structure = h.0;
-        }
+        let shape = if want_shape { dump_tree(&root).shape } else { 0 };
         LightObs {
             n_errors: errs.len(),
             first_error,
             shape,
-            structure,
             text_eq,
             errors_inside,
         }
@@ -2092,6 +2081,7 @@ fn run_sweep(ctx: &Ctx, lang: &Lang, sw: &Sweep, progress: &str, out: &mut Out) 
     }
     let bsig: Vec<(u16, usize, usize)> = btoks.iter().map(tok3).collect();
     let (mut checked, mut triv, mut idx) = (0u64, 0u64, 1usize);
+    let mut accepted_variants = 0u64;
     for (pi, at) in positions.into_iter().enumerate() {
         let words: Vec<String> = if !all {
             table.clone()
@@ -2109,10 +2099,21 @@ fn run_sweep(ctx: &Ctx, lang: &Lang, sw: &Sweep, progress: &str, out: &mut Out) 
         for (label, text) in variants_at(&sw.base, &btoks, at, &words, all && full, full || !all) {
             write_progress(progress, idx, &label, &text);
             idx += 1;
-            let (f, _) = quick_check(lang, &text);
+            let (f, vp) = quick_check(lang, &text);
             checked += 1;
             if !f.is_empty() && fails.len() < 4 {
                 fails.push(format!("sweep {label}: {} text={}", f.join(","), hex(text.as_bytes())));
+            }
+            // a variant the CURRENT parser accepts without errors is a member of the pool of error-free
+            // inputs: every piece at the boundaries of the two significant tokens on either side of the
+            // injection point must leave its shape alone
+            if let Some(vp) = vp.filter(|p| p.errors.is_empty() && !text.is_empty()) {
+                accepted_variants += 1;
+                let (n, f) = insertion_sweep(lang, &text, vp.dump.shape, KW_TRIVIA, Bounds::Near { at: at.min(text.len()), w: 2 }, 1);
+                triv += n;
+                if fails.len() < 4 {
+                    fails.extend(f.into_iter().map(|m| format!("sweep {label} is accepted without errors, but {m}")));
+                }
             }
         }
         // trivia at this boundary of the error-free base: same shape, still error-free
@@ -2141,6 +2142,7 @@ fn run_sweep(ctx: &Ctx, lang: &Lang, sw: &Sweep, progress: &str, out: &mut Out) 
     }
     out.add("sweep_variants_checked", checked);
     out.add("sweep_trivia_checked", triv);
+    out.add("sweep_variants_accepted_error_free", accepted_variants);
     let notes = vec![format!("sweep snippet={} variants={} trivia={}", sw.name, checked, triv)];
     (fails, notes)
 }
@@ -2195,16 +2197,17 @@ fn gen_sweep(seed: u64, n: u64, r: &mut Rng, ctx: &Ctx) -> Sweep {
 pub const KW_POSITIONS: usize = usize::MAX - 1;
 
 const KW_EXTRA: &[(&str, &str)] = &[
-    ("kw-member", "PROGRAM p x := cfg.fld; a.b.c := d.e(f).g; h^.i[j].k := THIS.l + SUPER.m(); END_PROGRAM"),
-    ("kw-hash-typed", "PROGRAM p x := #v + E#Red - w#5; #y := f(#t, a := #b); END_PROGRAM"),
-    ("kw-named-args", "PROGRAM p f(a := 1, b => c, d ?= e); x := i(j := k.l); END_PROGRAM"),
-    ("kw-stmts", "PROGRAM p lbl: x := 1; JMP lbl; FOR i := a TO b BY c DO d(); END_FOR; CASE s OF E.A, B: g(); C..D: ; END_CASE; r ?= q; END_PROGRAM"),
-    ("kw-var-decl", "PROGRAM p VAR a, b : T := c; d AT %IX0.1 : N.U; e : ARRAY[lo..hi] OF V; f : T (l..h); g : STRING[n]; END_VAR END_PROGRAM"),
-    ("kw-types", "TYPE T : U; S : STRUCT a : V; b : N.W := c; END_STRUCT; E : (A, B := x) := A; F : INT (C := 1, D); G : N.M (P, Q); H : UNION w : X; END_UNION; I : POINTER TO Y; J : REF_TO Z; END_TYPE"),
-    ("kw-pou-names", "FUNCTION f : T f := a; END_FUNCTION FUNCTION_BLOCK fb EXTENDS base IMPLEMENTS I1, N.I2 METHOD m : R m := a; END_METHOD ACTION act x := y; END_ACTION END_FUNCTION_BLOCK"),
-    ("kw-sizeof-adr", "PROGRAM p x := SIZEOF(T) + SIZEOF(v.w) + ADR(a) + REF(b); y := a.b^ + (c).d; END_PROGRAM"),
-    ("kw-config", "CONFIGURATION Cfg RESOURCE Res ON PLC TASK Fast(INTERVAL := T#10ms, PRIORITY := p); PROGRAM P1 WITH Fast : N.Main(a := b, c => d); END_RESOURCE VAR_ACCESS A1 : Res.P1.x : T READ_WRITE; END_VAR VAR_CONFIG Res.P1.y : U := v; END_VAR END_CONFIGURATION"),
-    ("kw-oop", "CLASS C EXTENDS B IMPLEMENTS I METHOD Run x := 1; END_METHOD END_CLASS INTERFACE K EXTENDS J PROPERTY P : T GET END_GET END_PROPERTY END_INTERFACE USING A.B; NAMESPACE N.M END_NAMESPACE"),
+    ("kw-member", "PROGRAM _p _x := cfg.fld; _a.b.c := _d.e(_f).g; _h^.i[_j].k := THIS.l + SUPER.m(); END_PROGRAM"),
+    ("kw-hash-typed", "PROGRAM p x := #v + E#Red - w#5; #y := f(#t, _a := #b); END_PROGRAM"),
+    ("kw-named-args", "PROGRAM _p f(a := 1, b => c, d ?= e); _x := i(j := _k.l); END_PROGRAM"),
+    ("kw-stmts", "PROGRAM _p lbl: _x := 1; JMP tgt; FOR i := a TO b BY c DO d(); END_FOR; CASE s OF E.A, B: _g(); C..D: ; END_CASE; r ?= q; END_PROGRAM"),
+    ("kw-var-decl", "PROGRAM _p VAR a, b : T := c; d AT %IX0.1 : N.U; _e : ARRAY[lo.._hi] OF V; _f : W (l.._h); _g : STRING[n]; END_VAR END_PROGRAM"),
+    ("kw-types", "TYPE T : U; S : STRUCT a : V; _b : N.W := c; END_STRUCT; H : UNION w : X; END_UNION; I : POINTER TO Y; J : REF_TO Z; END_TYPE"),
+    ("kw-enums", "TYPE E : (A, B := x) := D; F : INT (C := 1, G); K : N.M (P, Q); END_TYPE"),
+    ("kw-pou-names", "FUNCTION f : T _f := _a; END_FUNCTION FUNCTION_BLOCK fb EXTENDS base IMPLEMENTS I1, N.I2 METHOD m : R _m := _a; END_METHOD ACTION act _x := _y; END_ACTION END_FUNCTION_BLOCK"),
+    ("kw-sizeof-adr", "PROGRAM _p _x := SIZEOF(T) + SIZEOF(v.w) + ADR(a) + REF(b); _y := _a.b^ + (c).d; END_PROGRAM"),
+    ("kw-config", "CONFIGURATION Cfg RESOURCE Res ON PLC TASK Fast(INTERVAL := T#10ms, PRIORITY := p); PROGRAM P1 WITH Tk : N.Main(a := b, c => d); END_RESOURCE VAR_ACCESS A1 : R2.P2.x : T READ_WRITE; END_VAR VAR_CONFIG R3.P3.y : U := v; END_VAR END_CONFIGURATION"),
+    ("kw-oop", "CLASS C EXTENDS B IMPLEMENTS I METHOD Run _x := 1; END_METHOD END_CLASS INTERFACE K EXTENDS J PROPERTY P : T GET END_GET END_PROPERTY END_INTERFACE USING A.U; NAMESPACE N.M END_NAMESPACE"),
 ];
 
 /// Number of sweep snippets that serve as kwpos base texts in a quick run (rotating with the seed;
@@ -2274,9 +2277,10 @@ const KW_TRIVIA_FULL: &[&str] = &[" ", "\n", "(* c *)", "/* c */", "\t", "\r\n",
 /// eighth of them and every accepted one get the whole lossless oracle (`quick_check`).  Every
 /// candidate the parser accepts gets every piece at the boundaries of the hole token and of its two
 /// neighbours (that is where the acceptance of the word was decided).  The first accepted candidate
-/// of every distinct way the parser structured the text (pre-order sequence of node kinds), one
-/// more per hole chosen by the seed and, in the thorough tier, ALL accepted candidates get every piece
-/// between EVERY pair of adjacent tokens.  The base text itself gets every piece at every boundary.
+/// of every distinct way the parser structured the text (pre-order sequence of node kinds), the first
+/// accepted candidate of a quarter of the holes (rotating with the seed) and, in the thorough tier,
+/// ALL accepted candidates get every piece between EVERY pair of adjacent tokens.  The base text
+/// itself gets every piece at every token boundary.  The family stops at the sixth failure.
 fn run_kwpos(ctx: &Ctx, lang: &Lang, sw: &Sweep, progress: &str, out: &mut Out) -> (Vec<String>, Vec<String>, Option<String>) {
     let mut fails: Vec<String> = Vec::new();
     let mut witness: Option<String> = None;
@@ -2307,9 +2311,12 @@ fn run_kwpos(ctx: &Ctx, lang: &Lang, sw: &Sweep, progress: &str, out: &mut Out) 
         }
     }
     let mut structures: std::collections::HashSet<u64> = Default::default();
-    for (hi, (a, b)) in holes.iter().copied().enumerate() {
+    'family: for (hi, (a, b)) in holes.iter().copied().enumerate() {
         let mut accepted_here = 0usize;
         for (wi, w) in words.iter().enumerate() {
+            if fails.len() >= 6 {
+                break 'family;
+            }
             // the spelling of the table always; lower case or mixed case for a slice of the words that
             // rotates with the seed (the lexer ignores ASCII case) - thorough: all three
             let mut spellings = vec![w.clone()];
@@ -2356,9 +2363,12 @@ fn run_kwpos(ctx: &Ctx, lang: &Lang, sw: &Sweep, progress: &str, out: &mut Out) 
                     h.u16(n.kind() as u16);
                 }
                 let new_structure = structures.insert(h.0);
-                let which = if full || new_structure || accepted_here == (seed + hi) % 4 {
+                let which = if full {
                     exhaustive += 1;
                     Bounds::All
+                } else if new_structure || (accepted_here == 0 && (seed + hi) % 4 == 0) {
+                    exhaustive += 1;
+                    Bounds::Significant
                 } else {
                     Bounds::Near { at: a, w: 1 }
                 };
